@@ -567,7 +567,7 @@ pub fn run(s: &mut Session) {
     }
 
     if wanted(s, "counters-threads") {
-        let cases = s.args.budget(40, 400);
+        let cases = s.args.budget(40, 4_000);
         let small = s.args.scale < 0.2;
         s.part(
             "counters-threads",
